@@ -1,6 +1,7 @@
 package model
 
 import (
+	"encoding/base64"
 	"fmt"
 
 	"verif/internal/jsonx"
@@ -67,6 +68,7 @@ type OutOpts struct {
 	AddPropsTrueNo bool // F20: additionalProperties:true is never collected
 	NullObjZero    bool // F28: null for a nullable object may decode to a zero struct
 	NamedArrayAnon bool // inline object items of a named array type are anonymous structs: nothing is collected/defaulted
+	BytesAsBase64  bool // --min-sized-ints: an array of uint8 is a []byte and marshals as a base64 string
 }
 
 // CompareOut compares the input document with the JSON re-marshalled from the decoded Go value.
@@ -170,6 +172,19 @@ func CompareOut(s *sg.Schema, in, out any, o OutOpts) []OutDiff {
 			if !ok {
 				if len(tin) == 0 && IsEmptyValue(out) {
 					return
+				}
+				if str, isStr := out.(string); isStr && o.BytesAsBase64 {
+					if raw, err := base64.StdEncoding.DecodeString(str); err == nil && len(raw) == len(tin) {
+						same := true
+						for i, e := range tin {
+							if n, isNum := e.(jsonx.Num); !isNum || !jsonx.Equal(n, jsonx.N(int64(raw[i]))) {
+								same = false
+							}
+						}
+						if same {
+							return
+						}
+					}
 				}
 				add(path, "changed", fmt.Sprintf("array came back as %s", jsonx.Marshal(out)))
 				return
